@@ -327,13 +327,10 @@ mod imp {
         /// leading statements of a value block, which is not a layout matter)
         fn if_expr(&mut self, d: usize) -> E {
             let c = self.cond();
-            // a tail value that starts with `~` is the open finding KF-C15-3: kept rare
-            let a = if self.r.chance(1, 80) { E::BitNot(Box::new(self.int_expr(0))) } else { self.tail_value(d) };
-            let b = self.tail_value(d);
+            // tail values may start with any prefix operator, `~` included (KF-C15-3 was repaired)
+            let a = if self.r.chance(1, 8) { E::BitNot(Box::new(self.int_expr(0))) } else { self.int_expr(d) };
+            let b = self.int_expr(d);
             E::IfExpr(Box::new(c), Box::new(a), Box::new(b), self.r.chance(1, 4))
-        }
-        fn tail_value(&mut self, d: usize) -> E {
-            loop { let v = self.int_expr(d); if !matches!(v, E::BitNot(_)) { return v; } }
         }
         fn lambda(&mut self, in_parens: bool) -> E {
             let p = self.name("p");
